@@ -39,9 +39,10 @@ def islambda(f):
   # TODO(mdan): Look into checking the only the code object.
   if not (hasattr(f, '__name__') and hasattr(f, '__code__')):
     return False
-  # Some wrappers can rename the function, but changing the name of the
-  # code object is harder.
-  return ((f.__name__ == '<lambda>') or (f.__code__.co_name == '<lambda>'))
+  # Some wrappers can rename the function (functools.wraps can also give the
+  # name of a lambda to a regular function), but changing the name of the code
+  # object is harder.
+  return f.__code__.co_name == '<lambda>'
 
 
 def isnamedtuple(f):
